@@ -39,6 +39,12 @@ def cases(tier, seed):
                     for T in ((1, 2) if tier == "quick" else (1, 2, 3, L + 1)):
                         out.append({"kind": "var", "func": f, "L": L, "nulls": list(pat), "ddof": ddof, "threads": T,
                                     "name": f"nanops.{f}/float64/len={L}/null pattern {''.join('n' if p else 'v' for p in pat)}/ddof={ddof}/n_threads={T}"})
+    # variance of INTEGER data of any magnitude: the result is a float, no intermediate 64-bit integer square or sum may overflow
+    for L in ((2,) if tier == "quick" else (2, 3)):
+        for f in ("nanvar", "nanstd"):
+            for T in (1, 2):
+                out.append({"kind": "var", "func": f, "L": L, "nulls": [False] * L, "ddof": 1, "threads": T, "dtype": "int64",
+                            "name": f"nanops.{f}/int64 values of any magnitude/len={L}/ddof=1/n_threads={T}"})
     for shape in ((2, 2), (3, 2), (2, 3)) if tier == "quick" else ((1, 1), (2, 2), (3, 2), (2, 3), (3, 3)):
         for dt in ("float64", "int64"):
             out.append({"kind": "dot", "shape": list(shape), "dtype": dt, "name": f"nb_dot/{dt}/shape={shape}"})
@@ -199,15 +205,25 @@ def run_var(E, case):
     no = E["nanops"]
     L, nulls, ddof = case["L"], case["nulls"], case["ddof"]
     inp = Inputs()
-    vs = inp.floats("x", L, nullable=False)
-    xs = [float("nan") if nulls[i] else vs[i] for i in range(L)]
+    is_int = case.get("dtype") == "int64"
+    if is_int:
+        vs = inp.ints("x", L, -2**40, 2**40)             # squares do not fit into 64 bits, sums do
+        for a_ in range(L):
+            for b_ in range(a_ + 1, L):
+                inp.pre.append(vs[a_] != vs[b_])      # distinct values: a wrapped intermediate then shows in the result (replayable)
+        xs = list(vs)
+    else:
+        vs = inp.floats("x", L, nullable=False)
+        xs = [float("nan") if nulls[i] else vs[i] for i in range(L)]
     n = sum(1 for p in nulls if not p)
     old = (Config.sq_uninterpreted, Config.div_uninterpreted)
     Config.sq_uninterpreted = False
     Config.div_uninterpreted = False
     try:
         def body():
-            arr = A(xs, "float64").tag("input:arr")
+            from ..runtime import current as _cur
+            _cur().check_int_overflow = is_int
+            arr = A(xs, "int64" if is_int else "float64").tag("input:arr")
             return no[case["func"]](arr, ddof=ddof, n_threads=case.get("threads", 1))
         try:
             paths = run_paths(body)
@@ -217,9 +233,11 @@ def run_var(E, case):
             from . import common as _common
             return _common.raises_result(E, inp, PROP, case['kind'] + ':' + str(case.get('func', '')), case, e, t0)
         bads = []
-        valid = [vs[i] for i in range(L) if not nulls[i]]
+        valid = [SF.of(vs[i]) for i in range(L) if not nulls[i]]
         for pc, r, _ in paths:
             pcz = b_and(*pc) if pc else True
+            if isinstance(r, complex):
+                r = float("nan")          # (integer null marker) ** 0.5 on a path where every value is the null sentinel: NumPy gives nan
             if n - ddof <= 0 or n == 0:
                 isn = r != r if isinstance(r, float) else (r.nan if isinstance(r, SF) else False)
                 bads.append(("null when too few values", b_and(pcz, b_not(isn))))
@@ -477,6 +495,16 @@ def replay(case, conc, cand=None):
                 exp = npf[case["func"]](arr, axis=case["axis"])
                 bad = [i for i in range(len(exp)) if not approx_same(float(got[i]), float(exp[i]))]
                 return bool(bad), {"got": jsonable(list(got)), "numpy": jsonable(list(exp))}
+        if k == "var" and case.get("dtype") == "int64":
+            from fractions import Fraction
+            xi = [int(x) for x in conc["x"]]
+            got = float(getattr(rn, case["func"])(real_np.array(xi, dtype="int64"), ddof=case["ddof"], n_threads=case.get("threads", 1)))
+            n = len(xi)
+            m = Fraction(sum(xi), n)
+            exp = float(sum((Fraction(v) - m) ** 2 for v in xi) / (n - case["ddof"]))
+            tol = 64 * 2.3e-16 * n * float(max(abs(v) for v in xi)) ** 2 + 1e-9
+            bad = not (abs(got - exp) <= tol) if case["func"] == "nanvar" else not (got == got and got >= 0 and abs(got * got - exp) <= tol)
+            return bad, {"got": jsonable(got), "exact": jsonable(exp if case["func"] == "nanvar" else exp ** 0.5), "x": xi, "tolerance": tol}
         if k == "var":
             xs = [float("nan") if case["nulls"][i] else float(conc["x"][i]) for i in range(case["L"])]
             arr = real_np.array(xs)
